@@ -36,7 +36,7 @@ type scEntry struct {
 }
 
 func helperPath(t *testing.T) string {
-	p := filepath.Join(os.Getenv("VERIF_BUILD"), "savehelper")
+	p := filepath.Join(os.Getenv("VERIF_BUILD"), "savehelper"+os.Getenv("VERIF_HELPER_SUFFIX"))
 	if _, err := os.Stat(p); err != nil {
 		t.Skipf("save helper not built (%v)", err)
 	}
